@@ -2633,7 +2633,7 @@ class Entity(MutableMapping[str, str]):
     ) -> 'Entity':
         """Duplicate this entity entirely, including solids and outputs."""
         new_solids = [
-            solid.copy(vmf_file=vmf_file, side_mapping=side_mapping)
+            solid.copy(vmf_file=vmf_file, side_mapping=side_mapping, keep_vis=keep_vis)
             for solid in
             self.solids
         ]
